@@ -399,11 +399,16 @@ def check(repo):
     # the only way out without the marker is the early return for an already released shelf (self.dict is None)
     Fc = facts_of(cs)
     unmarked_ok = True
+    from ..facts import atom_facts as _atom_facts
     for (a_, _lab) in scfg.pred[scfg.exit]:
         if a_ in smarks:
             continue
         if a_ == scfg.entry or scfg.can_reach(scfg.entry, a_, avoid=smarks):
             alts = Fc.alts(a_) or []
+            if scfg.nodes[a_].kind == "test" and isinstance(_lab, bool):
+                # leaving straight from a test: what the taken outcome says counts too (`if self.dict is not None: ...` falling through)
+                extra = set(_atom_facts(cs, scfg.nodes[a_].ast, _lab, ()))
+                alts = [frozenset(set(alt) | extra) for alt in alts]
             if not alts or not all(any(k[0] == "is" and "None" in k[1:] and "self.dict" in k[1:] and t for (k, t) in alt) for alt in alts):
                 unmarked_ok = False
     r5.require(synced and bool(smarks) and unmarked_ok, cs, "shelf close syncs and installs its marker", "BytesShelf.close no longer syncs / installs the closed marker")
